@@ -262,4 +262,4 @@ def poke_matrix(pid, tier, seed, known):
     return dict(coverage=dict(poke_cells=total, visible_cells=[list(c) for c in cells]), evaluations=total, nontrivial=total, traces=total,
                 violations=viol, known_lines=known_lines,
                 samples=[dict(sdk='v1', direction='put_input', kind='L.S', poke='*item["a"].L[0].S = "POKED" after PutItem returned, then GetItem')],
-                rule='poke: 2 clients x 7 directions (PutItem input, UpdateItem values, GetItem/Query/Scan/UpdateItem outputs, stability of returned results) x 15 locations; ')
+                rule='poke: 2 clients x 7 directions (PutItem input, UpdateItem values, GetItem/Query/Scan/UpdateItem outputs, stability of returned results) x 15 locations, plus 4 key directions (LastEvaluatedKey of Scan and of an index Query, Key of an UpdateItem that creates the item, ExclusiveStartKey) x string / number / binary keys; ')
